@@ -38,6 +38,8 @@ pub struct Gen {
     /// choice among 6-8 handles almost never gets a buffer back to a single holder.
     pub focus: Option<usize>,
     pub focus_left: usize,
+    /// second half of a two-step move of a focus session (e.g. empty the handle, then reclaim)
+    pub pending: Option<Op>,
 }
 
 fn rel(r: &str, d: i64) -> Option<Arg> {
@@ -58,7 +60,7 @@ impl Gen {
         for _ in 0..4 {
             r.next();
         }
-        Gen { r, maxh, maxlen, profile: profile.to_string(), focus: None, focus_left: 0 }
+        Gen { r, maxh, maxlen, profile: profile.to_string(), focus: None, focus_left: 0, pending: None }
     }
 
     fn bad_pct(&self) -> usize {
@@ -230,6 +232,17 @@ impl Gen {
         let v = m.view(f)?;
         let room = live.len() < self.maxh;
         let h = f;
+        if let Some(mut op) = self.pending.take() {
+            if op.h == f && matches!(m.hs[f], Some(H::M(_))) {
+                if op.op == "m_split_to" && op.a.is_none() {
+                    let len = v.len;
+                    op.a = if len > 1 { abs(1 + self.r.below(len - 1)) } else { abs(0) };
+                }
+                if !(op.op.starts_with("m_split") && !room) {
+                    return Some(op);
+                }
+            }
+        }
         loop {
             let stage = self.focus_left;
             if stage >= 8 {
@@ -238,6 +251,12 @@ impl Gen {
             }
             self.focus_left += 1;
             match (stage % 4, m.hs[f].as_ref().unwrap()) {
+                (0, H::M(mm)) if room && mm.len() >= 2 && self.r.chance(25) => {
+                    // cut a middle piece out of the buffer: keep [0, at), then drop its front
+                    let len = mm.len();
+                    self.pending = Some(Op { op: "m_split_to".into(), h, a: None, ..Default::default() });
+                    return Some(Op { op: "m_split_off".into(), h, a: abs(2 + self.r.below(len - 1)), ..Default::default() });
+                }
                 (0, H::M(mm)) if room && self.r.chance(60) => {
                     let (len, cap) = (mm.len(), mm.capacity());
                     return Some(match self.r.below(6) {
@@ -284,6 +303,22 @@ impl Gen {
                         });
                     }
                     return Some(Op { op: "drop".into(), h: o, ..Default::default() });
+                }
+                (2, H::M(_)) if self.r.chance(40) => {
+                    // empty the handle, then ask for room around the size of the whole allocation
+                    let a = match self.r.below(6) {
+                        0 | 1 => rel("asz", 0),
+                        2 => rel("aszlen", 0),
+                        3 => rel("asz", -1),
+                        4 => rel("spare", 1),
+                        _ => self.reserve_arg(),
+                    };
+                    self.pending = Some(Op { op: if self.r.chance(60) { "m_try_reclaim".into() } else { "m_reserve".into() }, h, a, ..Default::default() });
+                    return Some(match self.r.below(3) {
+                        0 => Op { op: "m_clear".into(), h, ..Default::default() },
+                        1 => Op { op: "m_advance".into(), h, a: rel("len", 0), ..Default::default() },
+                        _ => Op { op: "m_truncate".into(), h, a: abs(0), ..Default::default() },
+                    });
                 }
                 (2, H::M(mm)) if self.r.chance(60) => {
                     let len = mm.len();
